@@ -347,11 +347,104 @@ def generate_rebin(repo):
     return '\n'.join(out) + '\n', info
 
 
+# ---------------------------------------------------------------------------------- uniq.py
+
+def uniq_branch(stmts, var, tag, out):
+    """    indicies = (V != roll(V, SHIFT)).nonzero()[0]
+           if indicies.size > 0: return PICK      else: return array([V.size - 1, ]...)"""
+    if len(stmts) != 2:
+        raise P.Unrecognised('uniq %s branch: two statements expected' % tag)
+    v = assign_of(stmts[0], 'indicies')
+    ok = isinstance(v, ast.Subscript) and isinstance(v.slice, ast.Constant) and v.slice.value == 0 \
+        and isinstance(v.value, ast.Call) and isinstance(v.value.func, ast.Attribute) and v.value.func.attr == 'nonzero' \
+        and not v.value.args
+    if not ok:
+        raise P.Unrecognised('uniq %s: indicies = (...).nonzero()[0] expected' % tag)
+    cmp_ = v.value.func.value
+    if not (isinstance(cmp_, ast.Compare) and len(cmp_.ops) == 1 and is_name(cmp_.left, var)):
+        raise P.Unrecognised('uniq %s: comparison of %s with its roll expected' % (tag, var))
+    r = cmp_.comparators[0]
+    if not (isinstance(r, ast.Call) and is_name(r.func, 'roll') and len(r.args) == 2 and is_name(r.args[0], var)
+            and not r.keywords):
+        raise P.Unrecognised('uniq %s: roll(%s, k) expected' % (tag, var))
+    shift = P.const_value(r.args[1])
+    if isinstance(cmp_.ops[0], ast.NotEq):
+        body = 'negb (eqb a b)'
+    elif isinstance(cmp_.ops[0], ast.Eq):
+        body = 'eqb a b'
+    else:
+        raise P.Unrecognised('uniq %s: comparison operator' % tag)
+    out.append('Definition uniq_%s_differs {A : Type} (eqb : A -> A -> bool) (a b : A) : bool := %s.' % (tag, body))
+    out.append('Definition uniq_%s_shift : Z := %s.' % (tag, P.zlit(shift)))
+    st = stmts[1]
+    if not (isinstance(st, ast.If) and len(st.body) == 1 and len(st.orelse) == 1 and isinstance(st.body[0], ast.Return)
+            and isinstance(st.orelse[0], ast.Return)):
+        raise P.Unrecognised('uniq %s: if/else of returns expected' % tag)
+
+    def size_env(node):   # indicies.size / V.size -> size
+        class F(ast.NodeTransformer):
+            def visit_Attribute(self, n):
+                if n.attr == 'size' and isinstance(n.value, ast.Name) and n.value.id in ('indicies', var):
+                    return ast.copy_location(ast.Name('size', ast.Load()), n)
+                return n
+        return F().visit(node)
+    t = st.test
+    if not (isinstance(t, ast.Compare) and isinstance(t.left, ast.Attribute) and is_name(t.left.value, 'indicies')):
+        raise P.Unrecognised('uniq %s: test on indicies.size expected' % tag)
+    out.append('Definition uniq_%s_nonempty (size : Z) : bool := %s.' % (tag, bexpr(size_env(t), {'size': 'size'})))
+    pick = st.body[0].value
+    if is_name(pick, 'indicies'):
+        pb = 'j'
+    elif isinstance(pick, ast.Subscript) and is_name(pick.value, 'index') and is_name(pick.slice, 'indicies'):
+        pb = 'index_at j'
+    else:
+        raise P.Unrecognised('uniq %s: returned subscripts' % tag)
+    out.append('Definition uniq_%s_pick (index_at : Z -> Z) (j : Z) : Z := %s.' % (tag, pb))
+    c = st.orelse[0].value
+    if not (isinstance(c, ast.Call) and is_name(c.func, 'array') and len(c.args) == 1 and isinstance(c.args[0], ast.List)
+            and len(c.args[0].elts) == 1):
+        raise P.Unrecognised('uniq %s: array([...]) expected for the constant case' % tag)
+    e = c.args[0].elts[0]
+    if not any(isinstance(n, ast.Attribute) and n.attr == 'size' and is_name(n.value, var) for n in ast.walk(e)):
+        raise P.Unrecognised('uniq %s: constant case must use %s.size' % (tag, var))
+    out.append('Definition uniq_%s_constant (size : Z) : Z := %s.\n' % (tag, zexpr(size_env(e), {'size': 'size'})))
+
+
+def generate_uniq(repo):
+    info = {'recognised': True, 'detail': []}
+    try:
+        src = open(os.path.join(repo, 'pydl/uniq.py')).read()
+        fn = P.find_function(ast.parse(src), 'uniq')
+        body = [s for s in fn.body if not (isinstance(s, ast.Expr) and isinstance(s.value, ast.Constant))
+                and not isinstance(s, (ast.Import, ast.ImportFrom))]
+        out = ['(* GENERATED by translate/c14.py from pydl/uniq.py -- do not edit *)',
+               'From Coq Require Import ZArith Bool.', 'Open Scope Z_scope.', '']
+        if len(body) != 1 or not isinstance(body[0], ast.If):
+            raise P.Unrecognised('single if index is None / else expected')
+        t = body[0].test
+        if not (isinstance(t, ast.Compare) and is_name(t.left, 'index') and isinstance(t.ops[0], ast.Is)
+                and isinstance(t.comparators[0], ast.Constant) and t.comparators[0].value is None):
+            raise P.Unrecognised('`index is None` expected')
+        uniq_branch(body[0].body, 'x', 'plain', out)
+        ib = body[0].orelse
+        q = assign_of(ib[0], 'q') if ib else None
+        if not (isinstance(q, ast.Subscript) and is_name(q.value, 'x') and is_name(q.slice, 'index')):
+            raise P.Unrecognised('q = x[index] expected')
+        uniq_branch(ib[1:], 'q', 'indexed', out)
+        out.append('Definition uniq_recognised : bool := true.')
+    except (P.Unrecognised, SyntaxError, IndexError, OSError, KeyError, AttributeError) as e:
+        info['recognised'] = False
+        info['detail'].append('%s: %s' % (type(e).__name__, e))
+        return None, info
+    return '\n'.join(out) + '\n', info
+
+
 if __name__ == '__main__':
     import sys
     text, info = generate(sys.argv[1] if len(sys.argv) > 1 else '/repo')
     print(info)
     print(text)
-    text, info = generate_rebin(sys.argv[1] if len(sys.argv) > 1 else '/repo')
-    print(info)
-    print(text)
+    for g in (generate_rebin, generate_uniq):
+        text, info = g(sys.argv[1] if len(sys.argv) > 1 else '/repo')
+        print(info)
+        print(text)
